@@ -417,7 +417,7 @@ func (g Gateway) Get(ctx context.Context, in *hydrapb.GetRequest) (*hydrapb.GetR
 					t.IsExist = false // override the default value
 				} else {
 					// convert the treasure from the hydra to the protobuf format
-					treasureToKeyValuePair(treasureInterface, t)
+					guardedTreasureToKeyValuePair(treasureInterface, t)
 				}
 
 				// add the treasure to the response
@@ -476,7 +476,7 @@ func (g Gateway) GetAll(ctx context.Context, in *hydrapb.GetAllRequest) (*hydrap
 	var response []*hydrapb.Treasure
 	for _, treasureInterface := range treasures {
 		t := &hydrapb.Treasure{}
-		treasureToKeyValuePair(treasureInterface, t)
+		guardedTreasureToKeyValuePair(treasureInterface, t)
 		response = append(response, t)
 	}
 
@@ -541,7 +541,7 @@ func (g Gateway) GetByIndex(ctx context.Context, in *hydrapb.GetByIndexRequest) 
 			response = append(response, &hydrapb.Treasure{Key: treasureInterface.GetKey(), IsExist: true})
 		} else {
 			t := &hydrapb.Treasure{}
-			treasureToKeyValuePair(treasureInterface, t)
+			guardedTreasureToKeyValuePair(treasureInterface, t)
 			response = append(response, t)
 		}
 	}
@@ -619,7 +619,7 @@ func (g Gateway) GetByKeys(ctx context.Context, in *hydrapb.GetByKeysRequest) (*
 			response = append(response, &hydrapb.Treasure{Key: key, IsExist: true})
 		} else {
 			t := &hydrapb.Treasure{}
-			treasureToKeyValuePair(treasureInterface, t)
+			guardedTreasureToKeyValuePair(treasureInterface, t)
 			response = append(response, t)
 		}
 	}
@@ -743,7 +743,7 @@ func (g Gateway) GetByIndexStream(in *hydrapb.GetByIndexStreamRequest, stream hy
 			resp.Treasure = &hydrapb.Treasure{Key: treasureInterface.GetKey(), IsExist: true}
 		} else {
 			t := &hydrapb.Treasure{}
-			treasureToKeyValuePair(treasureInterface, t)
+			guardedTreasureToKeyValuePair(treasureInterface, t)
 			resp.Treasure = t
 		}
 
@@ -885,7 +885,7 @@ func (g Gateway) GetByIndexStreamFromMany(in *hydrapb.GetByIndexStreamFromManyRe
 					resp.Treasure = &hydrapb.Treasure{Key: treasureInterface.GetKey(), IsExist: true}
 				} else {
 					t := &hydrapb.Treasure{}
-					treasureToKeyValuePair(treasureInterface, t)
+					guardedTreasureToKeyValuePair(treasureInterface, t)
 					resp.Treasure = t
 				}
 
@@ -1026,7 +1026,7 @@ func (g Gateway) GetStream(in *hydrapb.GetStreamRequest, stream hydrapb.Hydraide
 					if missingKeys[key] {
 						t.IsExist = false
 					} else {
-						treasureToKeyValuePair(nativeTreasures[key], t)
+						guardedTreasureToKeyValuePair(nativeTreasures[key], t)
 					}
 					treasureList = append(treasureList, t)
 				}
@@ -2833,6 +2833,17 @@ func keyValuesToTreasure(keyValuePair *hydrapb.KeyValuePair, treasureInterface t
 	if isValidTimestamp(keyValuePair.GetExpiredAt()) {
 		treasureInterface.SetExpirationTime(guardID, keyValuePair.GetExpiredAt().AsTime())
 	}
+}
+
+// guardedTreasureToKeyValuePair converts a live treasure for a read reply while holding the
+// treasure's guard. Writers change value and metadata field by field under that guard; a reader
+// that converts without it can see half of an update (a value of one version with the metadata
+// of another) and races with the writer on every field. Event callbacks and replies built from
+// clones keep using treasureToKeyValuePair directly: the former already run under the guard.
+func guardedTreasureToKeyValuePair(treasureInterface treasure.Treasure, t *hydrapb.Treasure) {
+	guardID := treasureInterface.StartTreasureGuard(true)
+	defer treasureInterface.ReleaseTreasureGuard(guardID)
+	treasureToKeyValuePair(treasureInterface, t)
 }
 
 // treasureToKeyValuePair converts the treasure content from the hydra to the protobuf format
